@@ -66,6 +66,14 @@ Fixpoint phibB (b x : tt R) : mat R :=
   | _, _ => ones2
   end.
 
+(* the two-site supercore of the DMRG products (torchtt/_dmrg.py, dmrg_matvec): W1 = Phis[k] x A_k x x_k, W2 = Phis[k+2] x A_(k+1) x x_(k+1),
+   W[l, m1, m2, L] = sum_{a, r} W1[l, m1, a, r] W2[a, m2, r, L]  (real data: the code conjugates operands and result, which cancels) *)
+Definition super_right (c2 : core4 R) (x2 : core3 R) (PR : t3) (m2 L : nat) : nat -> nat -> R := fun S R' =>
+  sum_n (nm c2) (fun n2 => sum_n (q1 c2) (fun S' => sum_n (r1 x2) (fun R'' => PR L S' R'' * e4 c2 S m2 n2 S' * e3 x2 R' n2 R''))).
+Definition supercore (PL : t3) (c1 : core4 R) (x1 : core3 R) (c2 : core4 R) (x2 : core3 R) (PR : t3) (l m1 m2 L : nat) : R :=
+  sum_n (r0 x1) (fun r => sum_n (nm c1) (fun n => sum_n (r1 x1) (fun R' =>
+    sum_n (q0 c1) (fun s => sum_n (q1 c1) (fun S => PL l s r * e4 c1 s m1 n S * super_right c2 x2 PR m2 L S R')) * e3 x1 r n R'))).
+
 (* a core with a single entry equal to one: the basis vector (l0, m0, L0) of the local space *)
 Definition unit3 (ra n rb l0 m0 L0 : nat) : core3 R :=
   mk3 ra n rb (fun l m L => delta l0 l * delta m0 m * delta L0 L).
@@ -109,4 +117,19 @@ Definition check_chain (pre post : list (nat * nat * nat * list R)) (Apre Apost 
   if eqb_l (flat_of_core (local_product PL (c4 ck) PR (c3 g))) impl_lp then
     if eqb_l (flat_of_core (local_rhs (phibF (map c3 bpre) xpre ones2) (c3 bk) (phibB (map c3 bpost) xpost) (r0 (c3 g)) (r1 (c3 g)))) impl_rhs then 0 else 5
   else 4.
+(* the supercore as a flat list over (l, m1, m2, L), l < ra, L < rc *)
+Definition check_supercore (ra rc rsL rbL : nat) (PL : list R) c1 x1 c2 x2 (rsR rbR : nat) (PR : list R) (impl : list R) : nat :=
+  let W := supercore (t3_of_flat rsL rbL PL) (c4 c1) (c3 x1) (c4 c2) (c3 x2) (t3_of_flat rsR rbR PR) in
+  let got := flat_map (fun l => flat_map (fun m1 => flat_map (fun m2 => map (fun L => W l m1 m2 L) (seq 0 rc)) (seq 0 (mm (c4 c2)))) (seq 0 (mm (c4 c1)))) (seq 0 ra) in
+  if eqb_l got impl then 0 else 4.
+(* the FIRST supercore dmrg_matvec decomposes (position 0, left interface ones): trains y (the guess), A, x given whole; the right interface is the
+   backward recursion over the cores 2.. as the routine itself composes it *)
+Definition check_dmrg_first (y : list (nat * nat * nat * list R)) (A : list (nat * nat * nat * nat * list R)) (x : list (nat * nat * nat * list R)) (impl : list R) : nat :=
+  match map c4 A, map c3 x, map c3 y with
+  | c1 :: c2 :: At, x1 :: x2 :: xt, _ :: y2 :: yt =>
+      let W := supercore ones3 c1 x1 c2 x2 (phiB yt At xt) in
+      let got := flat_map (fun m1 => flat_map (fun m2 => map (fun L => W 0%nat m1 m2 L) (seq 0 (r1 y2))) (seq 0 (mm c2))) (seq 0 (mm c1)) in
+      if eqb_l got impl then 0 else 4
+  | _, _, _ => 8
+  end.
 End LocalCheck.
